@@ -64,6 +64,18 @@ def fresh_process() -> None:
         cache.cache_clear()
     except Exception:  # noqa: BLE001
         pass
+    # ZorgTemplateManager keeps a class-level TemporaryDirectory: one per real process
+    try:
+        from zorg.service import templates as _t
+
+        old = _t.ZorgTemplateManager.tmp_dir
+        _t.ZorgTemplateManager.tmp_dir = tempfile.TemporaryDirectory(dir=_TMP_ROOT)
+        try:
+            old.cleanup()
+        except Exception:  # noqa: BLE001
+            pass
+    except Exception:  # noqa: BLE001
+        pass
     import gc
 
     gc.collect()
@@ -78,7 +90,7 @@ def write_config(path: Path, **kwargs) -> Path:
 
     path.parent.mkdir(parents=True, exist_ok=True)
     with path.open("w") as f:
-        yaml.dump(dict(kwargs), f, allow_unicode=True)
+        yaml.dump(dict(kwargs), f, allow_unicode=True, sort_keys=False)
     return path
 
 
